@@ -1,16 +1,25 @@
 #!/bin/sh
-# build.sh <output-binary> [extra go build flags...]
+# build.sh <output-binary> [PROPERTY]
 # Compiles /verif/harness into the module at $VERIF_REPO (default /repo) through an
 # overlay, so the harness sees the CURRENT working tree incl. internal packages.
+# With a PROPERTY (e.g. C14) only main.go, rng.go, lib_*.go and that property's files
+# (c14*.go) are compiled, so properties build independently of each other.
 set -e
 REPO=${VERIF_REPO:-/repo}
 OUT=$1; shift
+PROP=$1; [ $# -gt 0 ] && shift
 HD=$(cd "$(dirname "$0")" && pwd)
 OV=$(mktemp)
 {
   printf '{"Replace":{'
   first=1
-  for f in "$HD"/*.go; do
+  if [ -n "$PROP" ]; then
+    lc=$(printf '%s' "$PROP" | tr 'A-Z' 'a-z')
+    FILES=$(ls "$HD"/main.go "$HD"/rng.go "$HD"/lib_*.go "$HD"/"$lc"*.go 2>/dev/null || true)
+  else
+    FILES=$(ls "$HD"/*.go)
+  fi
+  for f in $FILES; do
     [ $first = 1 ] || printf ','
     first=0
     printf '"%s/internal/verifharness/%s":"%s"' "$REPO" "$(basename "$f")" "$f"
